@@ -1,7 +1,7 @@
 (** TextIsoExamples: non-vacuity of Compose/TextIso.v.  Ethyl acetate written twice:
 
       s1 = {[#A][#B][#C]}.{#A=O=C(C)[$a],#B=[$a]O[>b],#C=[<b]CC}      three fragments, acid part written from the carbonyl O
-      s2 = {[#Y][#X]}.{#X=CC(=O)O[>b],#Y=[<b]CC}                      two fragments, another cut placement, the ethyl
+      s2 = {[#Y][#X]}.{#X=CC(=O)O[$z],#Y=[$z]CC}                      two fragments, another cut placement, label and kind, the ethyl
                                                                       fragment listed first in the base graph
     Both descriptions pass the tests of [written]; the two cuts are [same_mol]; the theorem applies; and both resolve()
     calls of the model return (identity aromaticity transcript) with the explicit map preserving adjacency, orders and
@@ -20,18 +20,23 @@ Open Scope Z_scope.
 
 Definition ea_cut2 : cut :=
   {| c_atoms := [(10, at_ "C" 3); (11, at_ "C" 0); (12, at_ "O" 0); (13, at_ "O" 1); (14, at_ "C" 3); (15, at_ "C" 3)];
-     c_bonds := c_bonds ea_cut;
+     (* the same bonds; the one cut bond of this description is written with another label and kind ([$z] for [>b] [<b]) *)
+     c_bonds := [ {| cb_u := 10; cb_v := 11; cb_ord := VInt 1; cb_lab := []; cb_dollar := true |};
+                  {| cb_u := 11; cb_v := 12; cb_ord := VInt 2; cb_lab := []; cb_dollar := true |};
+                  {| cb_u := 11; cb_v := 13; cb_ord := VInt 1; cb_lab := []; cb_dollar := true |};
+                  {| cb_u := 13; cb_v := 14; cb_ord := VInt 1; cb_lab := S "z"; cb_dollar := true |};
+                  {| cb_u := 14; cb_v := 15; cb_ord := VInt 1; cb_lab := []; cb_dollar := true |} ];
      c_parts := [(S "Y", [14; 15]); (S "X", [10; 11; 12; 13])];
      c_dord := [] |}.
 Definition ea_defs2 : list fdef :=
   [ {| fd_name := S "X";
        fd_toks := [TAtom (S "C"); TAtom (S "C"); TOpen; TBond BDouble; TAtom (S "O"); TClose; TAtom (S "O")];
-       fd_dc := {| d_lead := []; d_after := [[]; []; []; []; []; []; [dsc ">" "b"]] |} |};
-    {| fd_name := S "Y"; fd_toks := [TAtom (S "C"); TAtom (S "C")]; fd_dc := {| d_lead := [dsc "<" "b"]; d_after := [[]; []] |} |} ].
+       fd_dc := {| d_lead := []; d_after := [[]; []; []; []; []; []; [dsc "$" "z"]] |} |};
+    {| fd_name := S "Y"; fd_toks := [TAtom (S "C"); TAtom (S "C")]; fd_dc := {| d_lead := [dsc "$" "z"]; d_after := [[]; []] |} |} ].
 Definition ea_base2 : Grammar.chain := [nd "Y"; nd "X"].
 Definition ea_string2 : pystr := cut_string ea_base2 ea_defs2.
 
-Example ea_string2_text : to_string ea_string2 = "{[#Y][#X]}.{#X=CC(=O)O[>b],#Y=[<b]CC}"%string.
+Example ea_string2_text : to_string ea_string2 = "{[#Y][#X]}.{#X=CC(=O)O[$z],#Y=[$z]CC}"%string.
 Proof. vm_compute. reflexivity. Qed.
 
 Example ea_two_descriptions :
